@@ -215,7 +215,17 @@ func appendEvents(path string, events []Event) error {
 	if err != nil {
 		return err
 	}
-	return writeAll(file, append(prefix, buf.Bytes()...))
+	info, err := file.Stat()
+	if err != nil {
+		return err
+	}
+	if err := writeAll(file, append(prefix, buf.Bytes()...)); err != nil {
+		// A write that stopped half-way (disk full, I/O error) must not leave
+		// part of the command behind: a command that fails changes nothing.
+		_ = file.Truncate(info.Size())
+		return err
+	}
+	return nil
 }
 
 // repairTail prepares a log whose last byte is not a newline (the trace of a
